@@ -221,6 +221,21 @@ def r3_forwarding(ctx):
     ok = "args = [i._global_track if isinstance(i, GenomicArrayGlobal) else i for i in args]" in txt and "if func == np.histogram:\n        return np.histogram(*args, **kwargs)" in txt and \
         "if func == np.sum:\n        return self.sum(*args[1:], **kwargs)" in txt
     ctx.ob(af.where, "np.histogram / np.sum are computed on the global run-length array (operands unwrapped in order)", ok, "", key="C09-R3|array-function")
+    # reductions: the genome-wide array's sum IS the run-length array's own sum (numpy's default accumulator); a hand-made reduction is accepted only without an
+    # accumulator tied to the (possibly compact) dtype of the run values
+    sm = ix.func(GT, "GenomicArrayGlobal.sum")
+    envs = local_env(sm.node)
+    e = single_return_expr(sm.node)
+    ctx.need(e is not None, "GenomicArrayGlobal.sum: single return not found")
+    ei = inline_locals(e, envs)
+    deleg = sym.canon(ei) in (sym.canon(sym.parse_expr("self._global_track.sum(axis=None)")), sym.canon(sym.parse_expr("self._global_track.sum()")),
+                              sym.canon(sym.parse_expr("np.sum(self._global_track)")))
+    if not deleg:
+        narrow = [k for c in ast.walk(ei) if isinstance(c, ast.Call) for k in c.keywords if k.arg == "dtype" and isinstance(k.value, ast.Attribute) and k.value.attr == "dtype"]
+        if not narrow:
+            raise Unrecognised(f"{sm.where}: the sum of a genome-wide array is computed as `{u(ei)[:100]}`")
+    ctx.ob(sm.where, "the sum of a genome-wide array is the run-length array's own sum, accumulated in numpy's default accumulator (not in the dtype of the run values, "
+           "which may be as small as uint8)", deleg, u(ei)[:100], key="C09-R3|sum-delegates")
     td = ix.func(GT, "GenomicArrayGlobal.to_dict")
     env = local_env(td.node)
     e = single_return_expr(td.node)
